@@ -316,6 +316,45 @@ def run(chk, binary):
     chk.cov["known_finding_examples"] = crlf_examples[:5]
     chk.cov["panic_sites"] = dict(sorted(sites.items(), key=lambda kv: -kv[1]))
     chk.sample({"argv": meta[0][1], "stdin": meta[0][2][:100]})
+    # ---- the output cannot be written (a full device; a reader that has gone away): still no panic, no signal ----
+    import subprocess
+    ofaults = []
+    cwd = os.path.join(TMP, f"c10o_{os.getpid()}")
+    shutil.rmtree(cwd, ignore_errors=True)
+    os.makedirs(cwd)
+    for nm, content in (("in1.txt", "alpha beta\ngamma\n"), ("in2.txt", "héllo wörld\n"), ("in3.txt", "x\n\ny")):
+        with open(os.path.join(cwd, nm), "w", encoding="utf-8") as f:
+            f.write(content)
+    OUT_ARGS = [["-c", "e"], ["--linewise", "-c", "e"], ["--linewise", "--serial", "-c", "e"], ["--json", "-c", "e"], ["--serial", "-m", "x"], ["-t", "{{1}}", "-c", "w"],
+                ['echo "hi"\ncut "e"\necho\n'], ['opts { linewise }\ncut "e"\necho $line\n'], ["-c", "e", "in1.txt", "in2.txt"], ["--linewise", "-c", "e", "in1.txt", "in2.txt"],
+                ["--serial", "-c", "e", "in1.txt", "in2.txt"], ["--json", "-c", "e", "in1.txt", "in2.txt"], ["--linewise", "--json", "-c", "e", "in1.txt", "in3.txt"], ["--linewise", "--serial", "-c", "e", "in1.txt"]]
+    for av in OUT_ARGS:
+        for sink in ("full", "closed"):
+            text = "alpha beta\ngamma delta\n" * (1 if sink == "full" else 4000)       # enough to overrun a pipe nobody reads
+            try:
+                if sink == "full":
+                    with open("/dev/full", "wb") as fo:
+                        pr = subprocess.run([binary] + av, input=text.encode(), stdout=fo, stderr=subprocess.PIPE, cwd=cwd, timeout=20, env=dict(os.environ, RUST_BACKTRACE="0"))
+                    rc, err = pr.returncode, pr.stderr
+                else:
+                    pp = subprocess.Popen([binary] + av, stdin=subprocess.PIPE, stdout=subprocess.PIPE, stderr=subprocess.PIPE, cwd=cwd, env=dict(os.environ, RUST_BACKTRACE="0"))
+                    pp.stdout.close()                                                        # the reader goes away at once
+                    try:
+                        pp.stdin.write(text.encode())
+                        pp.stdin.close()
+                    except BrokenPipeError:
+                        pass
+                    err = pp.stderr.read()
+                    rc = pp.wait(timeout=20)
+            except subprocess.TimeoutExpired:
+                rc, err = "timeout", b""
+            chk.count(("output-fault", tuple(av), sink))
+            ofaults.append((av, sink, rc))
+            if rc not in (0, 1) or b"panicked" in err:
+                chk.violation("spec:crash or hang when the output cannot be written", {"argv": av, "stdout": "/dev/full" if sink == "full" else "a pipe closed by its reader",
+                              "rc": rc, "stderr": err.decode(errors="replace")[-400:]})
+    shutil.rmtree(cwd, ignore_errors=True)
+    dist["output_fault_runs"] = len(ofaults)
     chk.cov["rule"] = ("argument vectors from the CLI grammar (incl. malformed: missing operands, -r counts beyond the list, unclosed -g), key strings from the per-mode grammar, ex/search lines with bad regexes and ranges, "
                        "raw printable/control fuzz, vic scripts from snippets and token soup, against empty, newline-only, huge-line, multi-byte, combining, emoji-ZWJ, CRLF and NUL texts; at the CLI: exit status 0 or 1 (with a diagnostic), "
                        "no panic, no signal, 8 s limit, stdout valid UTF-8; in-process: panics per key string caught by the hook. This stream supports the totality theorems of the modelled components, it does not replace them.")
